@@ -58,6 +58,17 @@ theorem C20_suffix_irrelevant (u : List Nat) (a : Nat) (v v' : List Nat) (fuel :
   intro j hj
   rw [lookahead_append_left _ u a v j hj, lookahead_append_left _ u a v' j hj]
 
+/-- **The offending token is the first one that cannot go on**: once the tokens `u` followed by `a` have been rejected
+    at `a`, no continuation whatever makes the parser accept an input that begins with `u`, `a` (the reported token is
+    not blamed for something a later token could have put right). The other half of minimality - that `u` alone can
+    still be completed to a sentence - is the viable-prefix property of the LALR(1) automaton; it is explored against
+    the recursive-descent recogniser, not proved. -/
+theorem C20_no_continuation (u : List Nat) (a : Nat) (v : List Nat) (fuel : Nat) (ev : List Event) (st : Option Nat)
+    (h : parse raw.tables (u ++ a :: v) none none fuel = (ev, .syntaxError u.length st)) (v' : List Nat) :
+    (parse raw.tables (u ++ a :: v') none none fuel).2 ≠ .accept := by
+  rw [C20_suffix_irrelevant u a v v' fuel ev st h]
+  intro hc; cases hc
+
 /-- Non-vacuity: `grammar x y` (kinds 13 17 17) is rejected at the end marker, index 3 — the input
     merely ends too early and no earlier token is blamed; `grammar x y = "s"` fails at its end too. -/
 example : (parse raw.tables [13, 17, 17] none none 200).2 = .syntaxError 3 (some 44) := by decide +kernel
